@@ -15,7 +15,7 @@ from . import rx
 from . import strlemmas
 
 BUILTINS = {
-    "ascii_digits", "fs_content", "markup_safe", "markup_safe_text", "eval", "len", "str", "int", "list", "tuple", "dict", "all", "any", "type", "range", "enumerate", "iter", "next",
+    "ascii_digits", "fs_content", "fs_isfile", "fs_isdir", "fs_exists", "markup_safe", "markup_safe_text", "eval", "len", "str", "int", "list", "tuple", "dict", "all", "any", "type", "range", "enumerate", "iter", "next",
     "open", "bool", "max", "min", "sorted", "repr", "abs", "print", "set", "bytes", "ord", "chr", "sum", "zip",
     "isinstance", "hasattr", "getattr", "setattr", "object", "float",
 }
@@ -318,6 +318,9 @@ def call_builtin(eng, world, n, args, kwargs, node, fr):
         # ghost: the bytes of the file at an OS path (a function of the path: files do not change during a request)
         eng.assumptions_used.add("file contents are a function of the path for the duration of a request (no concurrent modification)")
         return VStr(sfun("fs_content", STR, STR)(S(a0.z)), True)
+    if n in ("fs_isfile", "fs_isdir", "fs_exists"):
+        # ghost: what the file system says about an OS path (a function of the path for the duration of a request)
+        return VBool(sfun(n, STR, BOOL)(S(a0.z)))
     if n == "ascii_digits":
         # contract helper: s is a non-empty string of ASCII digits (the case in which int(s) is exact)
         if is_conc(a0.z):
